@@ -2223,6 +2223,14 @@ class tensor:
         # Extract array of subscripts
         subs = key
 
+        # One value for all subscripts or one value each: checked before any
+        # resizing so that a failed assignment leaves the tensor as it was
+        if np.ndim(value) <= 1 and np.size(value) not in (1, key.shape[0]):
+            raise ValueError(
+                f"Number of values ({np.size(value)}) must be 1 or match the number "
+                f"of subscripts ({key.shape[0]})"
+            )
+
         # Will the size change? If so we first need to resize x
         n = self.ndims
         bsiz = np.array(np.max(subs, axis=0))
